@@ -38,24 +38,9 @@ impl BigUint {
 //@ end
 //@ stub u_core/is_zero
 //@ stub u_core/clone
-    //@ assume BigUint::nth_root : Newton iteration with floating-point initial guesses (f64 ln/exp: outside Verus); contract from the property statement
-    #[verifier::external_body]
-    fn nth_root(&self, n: u32) -> (r: BigUint)
-        requires self.wf(), !mp() ==> n >= 1
-        ensures mp() ==> n >= 1, r.wf(), is_root(self.v(), n as nat, r.v())
-    { unimplemented!() }
-    //@ assume BigUint::sqrt : Newton iteration with floating-point initial guess; contract from the property statement
-    #[verifier::external_body]
-    fn sqrt(&self) -> (r: BigUint)
-        requires self.wf()
-        ensures r.wf(), is_root(self.v(), 2, r.v())
-    { unimplemented!() }
-    //@ assume BigUint::cbrt : Newton iteration with floating-point initial guess; contract from the property statement
-    #[verifier::external_body]
-    fn cbrt(&self) -> (r: BigUint)
-        requires self.wf()
-        ensures r.wf(), is_root(self.v(), 3, r.v())
-    { unimplemented!() }
+//@ stub u_roots/nth_root
+//@ stub u_roots/sqrt
+//@ stub u_roots/cbrt
 }
 
 //@ extract src/bigint.rs :: struct BigInt
